@@ -12,3 +12,27 @@ def thorough_guards(prop, cfg, seed):
         res = runner.run_units(cfg["units"], seed=s)
         info["seeds"][str(s)] = {u: {"status": r.status, "verified": r.verified, "errors": r.errors} for u, r in res.items()}
     return info
+
+
+def c18_walk_count(prop, tier, seed, cfg):
+    """(e) of spec/linear.rs: parse_rr is loop-free and calls a name walker at most 3 times on any path (syntactic count per match arm)."""
+    from rustlex import SourceFile, strip_comments
+    sf = SourceFile(os.path.join(extract.REPO, "src", "dns_sector.rs"), "dns_sector.rs")
+    own, fn = sf.find_member("impl", "DNSSector", "parse_rr")
+    body = strip_comments(sf.src[fn.body[0]:fn.body[1]])
+    loops = len(re.findall(r"\b(loop|while|for)\b", body))
+    # owner name walk (skip_name) + the maximum over the match arms
+    arms = re.split(r"\n\s*(?:x if x ==|_ =>)", body)
+    per_arm = [len(re.findall(r"check_compressed_name\s*\(|check_uncompressed_name\s*\(", a)) for a in arms[1:]] or [0]
+    owner = len(re.findall(r"skip_name\s*\(", arms[0]))
+    total = owner + max(per_arm)
+    info = {"loops_in_parse_rr": loops, "owner_walks": owner, "max_rdata_walks_per_arm": max(per_arm), "walks_per_record": total}
+    lines = []
+    if loops != 0 or total > 3:
+        path = os.path.join(ROOT, "replays", "C18-walk-count.json")
+        os.makedirs(os.path.dirname(path), exist_ok=True)
+        with open(path, "w") as f:
+            json.dump({"property": "C18", "obligation": "U1/parse_rr/walks-per-record<=3", "observed": info,
+                       "verifier_output": "syntactic count over /repo/src/dns_sector.rs parse_rr: the composition lemma assumes a loop-free parse_rr with at most 3 name walks per record"}, f, indent=1)
+        lines.append("VIOLATION property=C18 replay=%s no-failing-input-found" % path)
+    return (not lines), info, lines
